@@ -97,7 +97,7 @@ func (m *uiModel) current() int {
 var editActions = []string{"backward-char", "forward-char", "beginning-of-line", "end-of-line", "backward-word", "forward-word", "backward-delete-char", "delete-char",
 	"backward-kill-word", "unix-word-rubout", "kill-word", "kill-line", "unix-line-discard", "yank", "yank", "clear-query"}
 var navActions = []string{"up", "down", "up", "down", "first", "last", "page-up", "page-down", "half-page-up", "half-page-down"}
-var selActions = []string{"toggle", "toggle", "toggle-down", "toggle-up", "select", "deselect", "select-all", "deselect-all", "toggle-all", "clear-selection", "toggle-in", "toggle-out"}
+var selActions = []string{"toggle", "toggle", "toggle-down", "toggle-up", "select", "deselect", "select-all", "deselect-all", "toggle-all", "clear-selection", "toggle-in", "toggle-out", "next-selected", "prev-selected"}
 var c09QueryAlpha = []rune("ab1 -_/.é")
 
 // genAction draws one action, applies it to the model and returns its spelling.
@@ -213,6 +213,22 @@ func (m *uiModel) applySel(a string) {
 	case "clear-selection":
 		if m.sel.Limit > 0 {
 			m.sel.Clear()
+		}
+	case "next-selected", "prev-selected":
+		// the pointer goes to the nearest selected line below (next) / above (prev) on
+		// the screen, wrapping around; it stays when no other result is selected
+		if m.sel.Count() > 0 && n > 0 {
+			towardsZero := !m.cur.Reverse && a == "next-selected" || m.cur.Reverse && a == "prev-selected"
+			for i := 1; i < n; i++ {
+				y := (m.cur.Cy + i) % n
+				if towardsZero {
+					y = (m.cur.Cy - i + n) % n
+				}
+				if m.sel.Has(m.results[y]) {
+					m.cur.Cy = y
+					break
+				}
+			}
 		}
 	}
 }
